@@ -9,7 +9,7 @@ def run(run):
     rng = run.rng
     run.do_ties()
     quick = run.quick
-    n = 4000 if quick else 400000
+    n = run.n(4000, 400000)
     half = math.pi / 2
     grid = sorted(set([-half, half, 0.0, -0.0] + [half - 10.0 ** -k for k in range(1, 16)] + [-(half - 10.0 ** -k) for k in range(1, 16)]
                       + [half * (2 * i / n - 1) for i in range(n + 1)] + [rng.uniform(-half, half) for _ in range(n // 4)]))
@@ -57,7 +57,7 @@ def run(run):
             run.violation("the conversion is not odd", f"authalic_forward {geo.hx(-p)}", f"f(-x) = {nb!r}, f(x) = {b!r}")
     # lon/lat <-> sphere
     pts = [(0.0, 90.0), (123.0, 90.0), (0.0, -90.0), (180.0, 0.0), (-180.0, 0.0), (179.99999999, 45.0), (-540.0, 10.0), (540.0, -10.0), (-93.0, 0.0), (87.0, 0.0)]
-    for _ in range(1500 if quick else 100000):
+    for _ in range(run.n(1500, 100000)):
         pts.append((rng.uniform(-540, 540), rng.choice([rng.uniform(-90, 90), 90 - rng.uniform(0, 1e-6), -90 + rng.uniform(0, 1e-6)])))
     sreq = [f"from_lonlat {geo.hx(lo)} {geo.hx(la)}" for lo, la in pts]
     simpl, smodel = core.both(run, sreq, "from_lonlat")
